@@ -359,6 +359,13 @@ func (c *c05) checkContents(what string, idx []int, pred int, s *attribute.Set, 
 	if enc := s.Encoded(attribute.DefaultEncoder()); enc != strings.Join(parts, ",") {
 		r.FailHere("encoding|"+what, c.caseDesc(idx, pred), "Encoded %q, reference %q", enc, strings.Join(parts, ","))
 	}
+	// what ToSlice handed out belongs to the caller: writing to it must not reach the set
+	for i := range sl {
+		sl[i] = attribute.String("scribbled-by-caller", "x")
+	}
+	if now := realKey(s, false); now != got {
+		r.FailHere("toslice-aliases-set|"+what, c.caseDesc(idx, pred), "writing to the slice returned by ToSlice changed the set: %s -> %s", got, now)
+	}
 }
 
 // identity checks Equals / Equivalent against "same key -> typed value mapping".
